@@ -21,7 +21,10 @@
 (*   BmDiscardClaim  DiscardClaim(t)  SmDiscard  DiscardDo(t) with the      *)
 (*                                               logged ownership           *)
 (*   HKill        the harness starts killing machine m: Kill(m) becomes     *)
-(*                possible and is taken silently when the trace needs it    *)
+(*                possible and is taken silently when the trace needs it;   *)
+(*                likewise for a machine that its monitor later reports     *)
+(*                lost (Begin.dies): under load a machine of the test       *)
+(*                system can die by itself, of a lapsed keepalive           *)
 (*                                                                          *)
 (* The sessions are concatenated (Begin resets the state); task and         *)
 (* machine names carry the session.  The verdict is conformance (DRIFT),    *)
@@ -70,7 +73,7 @@ TSubmitGrant(t, m) == /\ st[t] \in {"INIT", "LOST"} /\ run[t].pc = "idle"
 
 Match(ev) ==
   LET k == ev.ev IN
-  CASE k = "Begin" -> ResetAll /\ tokill' = {} /\ early' = {}
+  CASE k = "Begin" -> ResetAll /\ tokill' = SetOf(ev.dies) /\ early' = {}
     [] k = "EvalSubmit" ->
          /\ UNCHANGED tokill
          /\ IF ~ev.runner THEN Stutter /\ UNCHANGED early
